@@ -114,6 +114,19 @@ def run_case(case):
                 rooms, vals = list(reversed(rooms)), list(reversed(vals))
             url = heyawake.serialize_heyawake(h, w, rooms, vals)
             rec["has_decoder"] = True
+            # the other documented input form: a list of rectangles (y0, x0, y1, x1, clue), when every room is one
+            rects = []
+            for room, v in zip(rooms, vals):
+                ys, xs = [y for y, _ in room], [x for _, x in room]
+                if len(room) == (max(ys) - min(ys) + 1) * (max(xs) - min(xs) + 1):
+                    rects.append((min(ys), min(xs), max(ys) + 1, max(xs) + 1, v))
+            if len(rects) == len(rooms):
+                rec["legacy_applicable"] = True
+                try:
+                    sp2 = split_url(heyawake.serialize_heyawake(h, w, rects))
+                    legacy = sp2[1][3] if sp2 and len(sp2[1]) == 4 else "<unsplittable>"
+                except Exception as e:  # noqa
+                    legacy = "<raised " + type(e).__name__ + ">"
             try:
                 d = heyawake.deserialize_heyawake(url)
                 if d is None:
